@@ -135,10 +135,11 @@ def plan(tier, seed):
 
 def minimums(tier, counters=None):
     if counters and counters.get("unattached.prettyPrint"):
-        return {"boundary.model_compared": 5000, "cli.stdout_parsed": 100, "cli.json_files_parsed": 20, "sub.outputs_parsed": 40}
+        return {"boundary.model_compared": 5000, "cli.stdout_parsed": 100, "cli.json_files_parsed": 20, "sub.outputs_parsed": 40,
+                "cli.reexport_documents_compared": 30}
     return {"prettyPrint.checked": 20000, "prettyPrint.calls.width34": 15000, "prettyPrint.calls.width29": 40,
             "cli.stdout_parsed": 100, "cli.json_files_parsed": 20, "hostile.colon_quote_in_string": 1000,
-            "sub.outputs_parsed": 40}
+            "sub.outputs_parsed": 40, "cli.reexport_documents_compared": 30}
 
 
 def run(spec, ctx):
@@ -243,6 +244,35 @@ def run(spec, ctx):
                         ctx.count("cli.json_files_parsed")
                     except ValueError as e:
                         ctx.violation("C06/json-file-not-json", "file written by -j does not parse: %s" % e, text=txt[:2000])
+                    os.unlink(os.path.join(outdir, fn))
+                # two more exports over existing files: the PEL replaced by logs (same name, same entry id) whose JSON user
+                # data differ only in the blanks INSIDE a string value; every export must leave the file holding the decode
+                # of the log that is there now
+                for variant in ("fan  1   failed", "fan 1 failed", "fan 1    failed", " fan 1 failed "):
+                    ud = pm.sec_ud(rng, u, "O", 0x2000, 1, 1, gen.nul_pad(json.dumps({"Status": variant, "N": [1, " x  y "]}).encode()),
+                                   expect_mode="json")
+                    twin = pm.Pel(e0.pel.creator, e0.pel.ph, e0.pel.uh, [ud])
+                    with open(e0.path, "wb") as f:
+                        f.write(twin.encode())
+                    rc, out, err, tb = harness.cli(argv + ["-E"])
+                    ctx.count("cli.reexports")
+                    want = harness.decode(twin.encode()).doc
+                    mine = [fn for fn in os.listdir(outdir) if dirs.is_json_name(fn, e0.name, e0.pel.eid)]
+                    got = None
+                    if mine:
+                        with open(os.path.join(outdir, mine[0])) as f:
+                            try:
+                                got = json.load(f)
+                            except ValueError:
+                                got = "unparsable"
+                    ctx.count("cli.reexport_documents_compared")
+                    if want is not None and got != want:
+                        ctx.violation("C06/json-file-stale-or-wrong", "after exporting a PEL again (same file name and entry id, user "
+                                      "data now %r) the JSON file %s" % (variant, "does not parse" if got == "unparsable" else
+                                                                          "is missing" if got is None else
+                                                                          "holds a document that differs from the decode: Status %r" %
+                                                                          (got.get("User Data", {}).get("Status"),)))
+                for fn in os.listdir(outdir):
                     os.unlink(os.path.join(outdir, fn))
                 continue
             try:
